@@ -62,8 +62,11 @@ def run(ctx: Ctx) -> None:
         opt = [n for n in walk_no_nested(e.node) if isinstance(n, ast.Assign) and isinstance(n.value, ast.Call) and unparse(n.value.func) == 'self.optimize' and not any('sample' in unparse(x) for x in [n])]
         main = [n for n in opt if 'free_betas_values' in unparse(n.value)]
         ctx.need(len(main) == 1, f'{mname}: one optimisation from the starting values')
-        outv = unparse(main[0].targets[0])
-        unp = [n for n in walk_no_nested(e.node) if isinstance(n, ast.Assign) and unparse(n.value) == outv and isinstance(n.targets[0], ast.Tuple)]
+        if isinstance(main[0].targets[0], ast.Tuple):
+            unp = [main[0]]  # unpacked directly
+        else:
+            outv = unparse(main[0].targets[0])
+            unp = [n for n in walk_no_nested(e.node) if isinstance(n, ast.Assign) and unparse(n.value) == outv and isinstance(n.targets[0], ast.Tuple)]
         ctx.need(len(unp) == 1, f'{mname}: the optimisation result is unpacked')
         xstar = unparse(unp[0].targets[0].elts[0])
         ev = [n for n in walk_no_nested(e.node) if isinstance(n, (ast.Assign, ast.AnnAssign)) and isinstance(n.value, ast.Call) and unparse(n.value.func) in ('self.calculate_likelihood_and_derivatives', 'self.calculate_likelihood') and seq(n) > seq(unp[0])]
